@@ -4,7 +4,10 @@ NMax == atoi(IOEnv.VN)
 Seqs == {<<>>, <<65>>, <<65, 67>>, <<65, 67, 71>>, <<65, 67, 71, 84, 65>>}
 \* up to 2 records: 2 ids x description or not x 5 sequences; 3 records: a smaller record set keeps the space at ~20k scenarios
 SeqsSmall == {<<>>, <<65>>, <<65, 67, 71>>}
+\* desc: 0 = the header is the id alone, 1 = a description follows after a blank, 2 = after a tab ("id<TAB>tag"): the id is
+\* the first word of the header line either way
 RecSet == IF NMax <= 2 THEN {[id |-> i, desc |-> d, seq |-> s] : i \in 1..2, d \in 0..1, s \in Seqs}
+                             \cup {[id |-> 1, desc |-> 2, seq |-> s] : s \in SeqsSmall}
           ELSE {[id |-> 1, desc |-> d, seq |-> s] : d \in 0..1, s \in SeqsSmall}
 RecLists == UNION {[1..n -> RecSet] : n \in 0..NMax}
 NLines(s) == Len(Serialise(s.recs, s.fastq, s.wrap))
